@@ -32,7 +32,20 @@ import (
 	dflag "github.com/vimeo/dials/sources/flag"
 )
 
-func init() { register("C18", runC18) }
+func init() { register("C18", checkC18) }
+
+// ez ends with EnableVerification on a Dials built with DelayInitialVerification + CallGlobalCallbacksAfterVerificationEnabled;
+// the C18 theorems run the entry point as a script over the runtime model, whose enable step verifies the INSTALLED config
+// and switches verification on in one monitor step.  That step is tied to the code by the controlled scheduler, so C18
+// borrows a slice of C09's schedules (delay in force in 85% of them) next to the real entry points.
+func checkC18(c *Ctx) {
+	runC18(c)
+	rule := c.Res.Rule
+	rtSliceN = c.scale(20, 300)
+	checkRuntime(c, "C09")
+	rtSliceN = 0
+	c.Res.Rule = rule + " Plus a slice of the controlled runtime schedules of C09 (delayed verification and EnableVerification racing updates): model state == implementation state after every step."
+}
 
 // ---------- the config type ----------
 
